@@ -17,6 +17,8 @@ mod extract_t3; // T3 (C19/C17): derive sets -> Generated/Derives.lean
 mod extract_t7; // T7 (C15): is_crate predicates, MacroSettings collection kinds -> Generated/Frontends.lean
 #[path = "../extract_t9.rs"]
 mod extract_t9; // T9 (C01): panic sites reachable from to_stream -> Generated/PanicSites.lean
+#[path = "../extract_t11.rs"]
+mod extract_t11; // T11 (C01): the arms of convert_schema_object's match -> Generated/DispatchArms.lean
 #[path = "../extract_t10.rs"]
 mod extract_t10; // T10 (C11): emitted Display / FromStr / TryFrom / Deref templates -> Generated/Templates.lean
 
@@ -193,6 +195,7 @@ fn main() {
     extract_t7::t7_frontends(repo, outdir);
     extract_t9::t9_panic_sites(repo, outdir);
     extract_t10::t10_templates(repo, outdir);
+    extract_t11::t11_dispatch(repo, outdir);
     if let Some(msg) = t5_problem {
         fail(&msg);
     }
